@@ -59,7 +59,8 @@ func TestCheck(t *testing.T) {
 		"(non-trivial = the reader was really parked and the refresh returned meanwhile).  concurrent: 8 readers x 1 refresher histories per component, " +
 		"decided by an interval rule and by porcupine against a per-host version register (non-trivial = at least one read overlapped a refresh).  " +
 		"safe-search stress: 16 readers cycling over 36000 (host, qtype, list) keys whose verdict changes with every version, 6 in-place refreshes per history; " +
-		"after each refresh returned the readers wait at a barrier and every key they touched last is asked once")
+		"after each refresh returned the readers wait at a barrier and every key they touched last is asked once.  " +
+		"rule-list window: 12 readers ask for 6000 first-list keys whose verdict changes with the version while the server holds back every download after the first list; panics recovered; every key touched during the refresh is asked once after it returned")
 	r.Assume("rule lists, blocked-service lists and safe-search lists carry no client-specific modifiers ($client etc.); custom rules may")
 	r.Assume("ConfigCustom.UpdateTime advances whenever the rules of a profile change (documented meaning of the field); a request that carries an OLDER " +
 		"snapshot than one the storage has already seen may be answered with the newer rules (documented: the cached filter is used unless it is older than the request's UpdateTime)")
@@ -83,9 +84,12 @@ func TestCheck(t *testing.T) {
 	concurrentPhase(r, s)
 	t3 := time.Now()
 	safeSearchStressPhase(r, s)
+	t4 := time.Now()
+	ruleListWindowPhase(r, s)
 	r.Extra("phase_wall_s", map[string]float64{
-		"sequential": t1.Sub(t0).Seconds(), "straddle": t2.Sub(t1).Seconds(), "concurrent": t3.Sub(t2).Seconds(),
-		"safe_search_stress": time.Since(t3).Seconds(),
+		"rule_list_window": time.Since(t4).Seconds(),
+		"sequential":       t1.Sub(t0).Seconds(), "straddle": t2.Sub(t1).Seconds(), "concurrent": t3.Sub(t2).Seconds(),
+		"safe_search_stress": t4.Sub(t3).Seconds(),
 	})
 
 	r.Bucket("hashprefix_result_cache_hits", int64(hashHitCounters()-hits0))
@@ -109,6 +113,9 @@ func TestCheck(t *testing.T) {
 	r.Require("conc_reads_overlapping_a_refresh", 50)
 	r.Require("conc_reads_after_a_refresh", 200)
 	r.Require("porcupine_ok", 20)
+	r.Require("rl_window_refreshes", 8)
+	r.Require("rl_window_reader_calls_between_list1_recompiled_and_refresh_return", 5000)
+	r.Require("rl_window_probes_after_refresh_returned", 2000)
 	r.Require("ss_stress_refreshes", 12)
 	r.Require("ss_stress_reader_calls_overlapping_a_refresh", 2000)
 	r.Require("ss_stress_probed_keys_touched_during_the_refresh", 200)
